@@ -177,10 +177,28 @@ def check(scratch, a, t0):
         deviations["release" if release else "dev"] = dev
         log("  real foreign calls (%s): %d runs, %d deviations" % ("release" if release else "dev", runs, len(dev)))
     alldev = sum(deviations.values(), [])
+
+    def report_real(why):
+        """a real foreign call that contradicts the observable contract of C19 is a violation demonstrated on the real code, whatever
+        the solver's part could decide"""
+        seen = set()
+        for prof, devs in deviations.items():
+            for d in devs:
+                if d[0] in seen:
+                    continue
+                seen.add(d[0])
+                payload = {"property": "C19", "fn": "real-suite", "arm": d[0], "class": "real-call-deviates", "profile": prof, "detail": d[1], "real_deviations": [d], "solver_part": why}
+                p = V.save_replay("C19", "real_%s_%s" % (d[0][:40], prof), payload)
+                print("VIOLATION property=C19 replay=%s" % p)
+                print("   real foreign call `%s` (%s profile) deviates from the contract: %s -> %s   [solver part: %s]" % (d[0], prof, d[1], json.dumps(d[2])[:300], why))
+
     if gave_up:
         for d in alldev[:5]:
             log("REAL DEVIATION:", d[0], d[1], json.dumps(d[2])[:400])
         print("INCONCLUSIVE property=C19 reason=%s real_deviations=%d" % (gave_up, len(alldev)))
+        if alldev:
+            report_real("gave up: " + gave_up[:160])
+            return V.EXIT_VIOLATION
         return V.EXIT_INCONCLUSIVE
     known = V.known_index("C19")
     code = V.EXIT_OK
@@ -210,8 +228,9 @@ def check(scratch, a, t0):
         # the encoding says the property holds but real foreign calls deviate: the stub or the replicated step is wrong
         for d in alldev[:5]:
             log("REAL DEVIATION not predicted by the encoding:", d[0], d[1], json.dumps(d[2])[:400])
-        code = V.EXIT_INCONCLUSIVE
         print("INCONCLUSIVE property=C19 real_deviations=%d (the encoding predicts none)" % len(alldev))
+        report_real("all obligations discharged - the deviation lies outside the solver's part (Function::run's loop, CLI)")
+        code = V.EXIT_VIOLATION
     if qs.undecided and code == V.EXIT_OK:
         code = V.EXIT_INCONCLUSIVE
         print("INCONCLUSIVE property=C19 undecided=%d" % len(qs.undecided))
